@@ -488,6 +488,25 @@ pub fn generate(kind: &str, seed: u64, run: u64, thorough: bool) -> Scenario {
             sc.origin = origin;
             sc.note = "shapes".to_owned();
         }
+        "deep" => {
+            // nesting up to the bound the property states (64): parentheses, negations, nested
+            // mappings and sequences, long operator chains
+            let mut fr = Rng::stream(seed, run, "STORAGE");
+            let depth = *fr.pick(&[1usize, 2, 8, 31, 32, 33, 63, 64]);
+            let (role, s) = match fr.below(8) {
+                0 => ("condition", format!("{}A{}", "(".repeat(depth), ")".repeat(depth))),
+                1 => ("condition", format!("{}A", "not ".repeat(depth))),
+                2 => ("condition", format!("{}A{}", "not (".repeat(depth), ")".repeat(depth))),
+                3 => ("condition", vec!["A"; depth + 1].join(if fr.chance(1, 2) { " and " } else { " or " })),
+                4 => ("condition", format!("{}A and B{}", "(".repeat(depth), " or A)".repeat(depth))),
+                5 => ("condition", format!("{}A{}", "(".repeat(depth), ")".repeat(depth.saturating_sub(1)))),
+                6 => ("nested", format!("{}", depth)),
+                _ => ("condition", format!("{} int(a) == 1", "A and".repeat(depth))),
+            };
+            sc.strings = vec![s];
+            sc.note = role.to_owned();
+            sc.origin = format!("deep nesting {}", depth);
+        }
         "remnants" => {
             let a = REMNANT_ALPHABET.len() as u64;
             let mut r = run;
@@ -648,6 +667,35 @@ fn exec_text(sc: &Scenario) -> Outcome {
     d.str(&s);
     let role = sc.note.as_str();
     let ys = |x: &str| Yaml::String(x.to_owned());
+    if role == "nested" {
+        // identifier whose mappings nest `depth` levels, as a value and as list members
+        let depth: usize = s.parse().unwrap_or(1).min(64);
+        let mut v = ys("foo");
+        for i in 0..depth {
+            v = if i % 7 == 3 { Yaml::Sequence(vec![ymap("k", v)]) } else { ymap("k", v) };
+        }
+        let ident = ymap("k", v);
+        text_case("parse_identifier(deep)", &mut vs, &mut stats, &s, || parse_identifier(&ident).is_ok());
+        let mut det = serde_yaml::Mapping::new();
+        det.insert(ys("A"), ident.clone());
+        det.insert(ys("condition"), ys("A"));
+        let mut rule = serde_yaml::Mapping::new();
+        rule.insert(ys("detection"), Yaml::Mapping(det));
+        rule.insert(ys("true_positives"), Yaml::Sequence(vec![]));
+        rule.insert(ys("true_negatives"), Yaml::Sequence(vec![]));
+        let y = Yaml::Mapping(rule);
+        text_case("from_value(deep)", &mut vs, &mut stats, &s, || match Rule::from_value(y.clone()) {
+            Ok(r) => {
+                // an accepted deep rule must also optimise and print
+                let o = r.optimise(Default::default());
+                !format!("{}", o.detection.expression).is_empty()
+            }
+            Err(_) => false,
+        });
+        if let Ok(text) = serde_yaml::to_string(&y) {
+            text_case("from_str(deep)", &mut vs, &mut stats, &s, || Rule::from_str(&text).is_ok());
+        }
+    }
     if role == "condition" || role == "all" {
         text_case("tokenise", &mut vs, &mut stats, &s, || s.clone().tokenise().is_ok());
         let mut det = serde_yaml::Mapping::new();
@@ -756,7 +804,7 @@ pub fn execute(sc: &Scenario) -> Outcome {
     match sc.kind.as_str() {
         "shapes" => exec_shapes(sc),
         "storage" | "truncate_all" | "lose_range_all" => exec_storage(sc),
-        "text" | "remnants" => exec_text(sc),
+        "text" | "remnants" | "deep" => exec_text(sc),
         _ => Outcome::clean(&Digest::new(), Stats::default()),
     }
 }
